@@ -548,6 +548,7 @@ def work_c13(prop, tier, seed, widx, nworkers):
         val = rng.choice([0, 1, 2, 3])
         for s in range(nsched):
             base = base_case(prog, [['r0', val]], rng, store=True, gate_saves=rng.choice([0.0, 0.5]))
+            base['pool_cap'] = rng.choice([None, None, 1, 1, 2])     # bounded pools: jobs may still be queued at the end
             res0 = cases.run_case(base, built)
             acc.add(base, res0)
             L = res0['stats']['steps']
